@@ -14,7 +14,7 @@ CHECKS = {
               "n_prior_samples, and randomized order with the index array taken from the recorded shuffle) are validated by the "
               "PartitionTrace monitor against Partition (validity, not the current algorithm). That the validity the monitor checks gives "
               "what the property promises (every requested row in exactly one task, nothing else) is proved for EVERY n, start and "
-              "task list with the TLA+ proof system (spec/PartitionProof.tla, 139 obligations, re-checked by tlapm on every run)."),
+              "task list with the TLA+ proof system (spec/PartitionProof.tla, 139 obligations, re-checked by tlapm on every run). A randomized order must be covered in that order also by an implementation that hands out row ranges; the array to cover is the stretch of the recorded draw the tasks reproduce."),
         design_ref="DESIGN.md section 3 C16",
         note="Trusted: TLC/SANY, JSON transport of ints < 2^31, numpy slicing. Not covered: n or start_idx >= 2^31.",
         technique="TLA+ spec (Partition/PartitionAlg) model-checked with TLC; validity => exactly-once proved with TLAPS; spec->code replay of TLC-enumerated inputs; code->spec trace validation",
@@ -146,7 +146,7 @@ CHECKS = {
               "batch_tasks, pool.map, each task, read_batch, kernel calls, generator draws, concatenate, pack/unpack); each call is "
               "a crash point, injected in a re-run from the same generator state; the FaultsTrace monitor requires the injected "
               "exception object at the caller, no new file in TMPDIR / tempfile_path, an unchanged SHA-256 of the user's file and a "
-              "correct follow-up call on the same TheJoker. A call kind with no model action is a spec gap (exit 2)."),
+              "correct follow-up call on the same TheJoker. A call kind with no model action is a spec gap (exit 2). Inside the cache write the writer's own h5py File open and create_dataset calls are crash points too: what the writer does about its own failure may not hide the error from the caller."),
         design_ref="DESIGN.md section 3 C13",
         note=("Trusted: the interposed boundary covers the calls made inside the sampling functions; os.unlink in the finally clause and "
               "the temp file's own close() are not crash points. thorough: failures inside real worker processes (MultiPool forked under "
@@ -162,7 +162,7 @@ CHECKS = {
               "content read back (per-row SHA-256 of the float64 values, row ids, columns, units, t_ref, poly_trend, n_offsets) must "
               "be an outcome the SampleFile specification allows (SampleFileTrace monitor). Seeded random histories go to 6 "
               "operations on tables of up to 200/5000 rows and include FITS write/read; every history hands over its reference epochs "
-              "on one of the tcb / utc / tt / tdb scales."),
+              "on one of the tcb / utc / tt / tdb scales. One history in four stores a column in single precision (double-precision columns must come back to 1e-10); FITS histories write what they read back to HDF5 again; a reference epoch on one side only makes an append incompatible."),
         design_ref="DESIGN.md section 3 C12",
         note=("Trusted: TLC, astropy/h5py/PyTables. An append where exactly one side has no reference epoch may be accepted or refused "
               "(the property does not define it; astropy's metadata merge treats None as unspecified). Batch values are decoded "
@@ -245,7 +245,7 @@ CHECKS = {
               "sum of that curve; samples.t_ref the data's; and marginal = unmarginalised + linear prior - conditional posterior. Off "
               "the lattice the identity is evaluated on seeded random real-valued problems with the row's unmarginalised likelihood "
               "from the real code (get_orbit) and prior / posterior densities from the TLC-certified floating-point transcription of "
-              "Gauss.tla (quick 80, thorough 1500; 1e-6 relative to the largest term). Histories (spec/History.tla, HistoryMC, HistoryTrace): every history of calls on one sample table (ln_unmarginalized_likelihood after orbit reads, wrap_K, column assignment, copies) that TLC enumerates to 3 calls (reads, documented in-place changes, copies / slices / masks / pickles / file round trips) and ends in a read this property owns is replayed on a real object; at every read the answer is compared with a fresh twin on which only the content-changing calls were replayed - an answer may depend on the content only, never on the calls made before."),
+              "Gauss.tla (quick 80, thorough 1500; 1e-6 relative to the largest term). Histories (spec/History.tla, HistoryMC, HistoryTrace): every history of calls on one sample table (ln_unmarginalized_likelihood after orbit reads, wrap_K, column assignment, copies) that TLC enumerates to 3 calls (reads, documented in-place changes, copies / slices / masks / pickles / file round trips) and ends in a read this property owns is replayed on a real object; at every read the answer is compared with a fresh twin on which only the content-changing calls were replayed - an answer may depend on the content only, never on the calls made before. Off the lattice single sources without reference epoch (t_ref=False, times from BMJD 0) are included."),
         design_ref="DESIGN.md section 3 C04",
         note=("Exhaustive on the lattice only; off the lattice explored on seeded random problems. twobody's KeplerOrbit is the independent orbit path. A failing identity would be attributed to a "
               "listed kernel finding only when the kernel's marginal or posterior state in the same trace was classified as that "
@@ -280,7 +280,7 @@ CHECKS = {
               "lattice priors are built through JokerPrior.default(sigma_v=...), uncertainties are declared in km/s or m/s "
               "independently of the velocities. Off the lattice model_rv, the observed node and the ln_likelihood deterministic are "
               "compared at random parameter points of seeded random real-valued problems with the TLC-certified floating-point "
-              "transcription of Gauss.tla (independent Kepler solver; quick 16, thorough 240; 1e-6 relative)."),
+              "transcription of Gauss.tla (independent Kepler solver; quick 16, thorough 240; 1e-6 relative). Every off-lattice problem also calls setup_mcmc a second time on the same model for another data set: the call must be refused or the model must describe that data (C11.SecondSetupOnTheSameModelDescribesItsOwnData)."),
         design_ref="DESIGN.md section 3 C11",
         note=("Exhaustive on the lattice only; off the lattice explored on seeded random problems. NOT decided: the prior term of the model's total log-density (pymc transforms / Jacobians); it is "
               "bound only structurally (the free variables are the prior's variables, whose densities are the declared ones)."),
